@@ -143,7 +143,6 @@ def visitors(ctx, F):
            "string visitor overrides %s; reference expecting, visit_str, visit_bytes" % sorted(b.name for b in sv), cfg=F.key)
     ctx.ob(r, ("FuzzyHashBytesVisitor", "methods"), sorted(b.name for b in bv) == ["expecting", "visit_bytes"],
            "bytes visitor overrides %s; reference expecting, visit_bytes" % sorted(b.name for b in bv), cfg=F.key)
-    CUSTOM = ("fn", "serde::de::Error::custom")
     for b in sv:
         ps = cmpmodel.ret_paths(b)
         e = n(ps[0].ret) if len(ps) == 1 else None
@@ -151,30 +150,96 @@ def visitors(ctx, F):
             m = match(("call", V("vb"), (P(1), ("call", "core::str::<impl str>::as_bytes", (P(2),)))), e) if e else None
             ctx.ob(r, ("FuzzyHashStringVisitor::visit_str", "delegates"), bool(m) and m["vb"].endswith("visit_bytes"), "visit_str is %s" % (sym.fmt(e) if e else e), cfg=F.key, where=b.where())
         elif b.name == "visit_bytes":
-            want = ("call", "core::result::Result::<T, E>::map_err", (("call", "hash::public::FuzzyHashType::from_str_bytes", (P(2), ("agg", "adt:core::option::Option::None", ()))), CUSTOM))
-            m = match(("call", "core::result::Result::<T, E>::map_err", (("call", V("f"), (P(2), ("agg", "adt:core::option::Option::None", ()))), CUSTOM)), e) if e else None
-            ctx.ob(r, ("FuzzyHashStringVisitor::visit_bytes", "parser-with-autodetect"), bool(m) and m["f"].endswith("::from_str_bytes"),
-                   "string visitor is %s; reference from_str_bytes(v, None).map_err(de::Error::custom)" % (sym.fmt(e) if e else e), cfg=F.key, where=b.where())
+            why = _visitor_semantics(F, b, "string")
+            ctx.ob(r, ("FuzzyHashStringVisitor::visit_bytes", "parser-with-autodetect"), why is None,
+                   "string visitor: %s; reference from_str_bytes(v, None).map_err(de::Error::custom)" % why, cfg=F.key, where=b.where())
     for b in bv:
         if b.name != "visit_bytes":
             continue
-        dec = cmpmodel.decision(b)
-        gate = binop("Ne", ("call", "core::slice::<impl [T]>::len", (P(2),)), ("cparam", "SIZE_IN_BYTES"))
-        ok = len(dec) == 2
-        msgs = []
-        for cs, ret in dec:
-            if cs == [(gate, True)]:
-                good = ret[0] == "agg" and ret[1].endswith("Result::Err") and ret[2][0][0] == "call" and ret[2][0][1] == "serde::de::Error::invalid_length" \
-                    and ret[2][0][2][0] == ("call", "core::slice::<impl [T]>::len", (P(2),))
-                if not good:
-                    msgs.append("wrong-length arm returns %s" % sym.fmt(ret)[:100])
-            elif cs == [(gate, False)]:
-                m = match(("call", "core::result::Result::<T, E>::map_err", (("call", V("tf"), (P(2),)), CUSTOM)), ret)
-                if not (m and m["tf"].endswith("::try_from")):
-                    msgs.append("right-length arm returns %s; reference try_from(v).map_err(de::Error::custom)" % sym.fmt(ret)[:120])
+        why = _visitor_semantics(F, b, "bytes")
+        ctx.ob(r, ("FuzzyHashBytesVisitor::visit_bytes", "length-check+try_from"), why is None,
+               "bytes visitor: %s; reference: wrong length -> Err(invalid_length(len, &self)); else the array parser's result with its error through de::Error::custom" % why, cfg=F.key, where=b.where())
+
+
+def _visitor_semantics(F, b, kind):
+    """The visitor body evaluated on abstract inputs (evalx, symbolic values): for each length class of the input and each outcome
+    (Ok(h) / Err(e)) of the crate's parser, the returned value must be Ok(h), Err(custom(e)) or Err(invalid_length(len, ..)).
+    The slice parser TryFrom<&[u8]> is evaluated through (its own length check and array conversion are part of what is
+    decided); the array parser TryFrom<&[u8; N]> and from_str_bytes are the abstract outcomes."""
+    from .. import evalx
+    evalx.set_target(F)
+    S = sym.Sym(b)
+    try:
+        paths = S.paths()
+    except sym.PathLimit:
+        return "too many paths"
+    V_, SELF, H_, E_ = ("obj", "v"), ("obj", "self"), ("obj", "h"), ("obj", "e")
+    N = 35
+    CUSTOM, INVALID = "serde::de::Error::custom", "serde::de::Error::invalid_length"
+    lens = (N,) if kind == "string" else (N, N - 1, N + 1, 0)
+    for L in lens:
+        for outcome in (("Ok", H_), ("Err", E_)):
+            seen = {"parser": 0}
+
+            def slice_len(x):
+                if x != V_ and x != ("arr", V_):
+                    raise evalx.Unknown("len of %s" % (x,))
+                return L
+
+            def try_into(S_, bb, vals):
+                tgt = panics.try_into_target_len(F, S_.b, bb) if bb is not None else None
+                if vals != [V_] or tgt is None:
+                    raise evalx.Unknown("try_into of %s" % (vals,))
+                tl = tgt[1] if tgt[0] == "val" else {"SIZE_IN_BYTES": N}.get(tgt[1])
+                if tl is None:
+                    raise evalx.Unknown("try_into target length %s" % (tgt,))
+                return ("Ok", ("arr", V_)) if L == tl else ("Err", ("obj", "TryFromSliceError"))
+
+            def array_parser(x):
+                if x != ("arr", V_):
+                    raise evalx.Unknown("array parser applied to %s" % (x,))
+                seen["parser"] += 1
+                return outcome
+
+            def str_parser(x, opt):
+                if x != V_ or opt != ("None",):
+                    raise evalx.Unknown("from_str_bytes(%s, %s)" % (x, opt))
+                seen["parser"] += 1
+                return outcome
+
+            asg = {"symbolic": True, "params": {1: SELF, 2: V_}, "cparams": {"SIZE_IN_BYTES": N},
+                   "calls": {"core::slice::<impl [T]>::len": slice_len, "TryFrom<&[u8; SIZE_IN_BYTES]>>::try_from": array_parser,
+                             "::from_str_bytes": str_parser},
+                   "xcalls": {"TryInto<U>>::try_into": try_into}}
+            try:
+                got = evalx.run(S, F, paths, asg)
+            except evalx.Panics as ex:
+                return "input of length %s panics (%s)" % ("SIZE_IN_BYTES%+d" % (L - N) if L else 0, ex)
+            except evalx.Unknown as ex:
+                return "cannot evaluate: %s" % ex
+            if kind == "bytes" and L != N:
+                ok = isinstance(got, tuple) and got[0] == "Err" and isinstance(got[1], tuple) and got[1][:2] == ("app", INVALID) and got[1][2][0] == L
+                want = "Err(invalid_length(len, ..))"
+            elif outcome[0] == "Ok":
+                ok, want = got == ("Ok", H_), "Ok(parsed hash)"
             else:
-                msgs.append("conditions %s" % [(sym.fmt(c), t) for c, t in cs])
-        ctx.ob(r, ("FuzzyHashBytesVisitor::visit_bytes", "length-check+try_from"), ok and not msgs, "; ".join(msgs) or "paths %d" % len(dec), cfg=F.key, where=b.where())
+                ok, want = got == ("Err", ("app", CUSTOM, E_)), "Err(custom(parser error))"
+            if not ok:
+                return "input of length %s, parser outcome %s: returns %s; reference %s" % (
+                    "n/a" if kind == "string" else ("SIZE_IN_BYTES%+d" % (L - N) if L else 0), outcome[0], _show(got), want)
+    return None
+
+
+def _show(v):
+    if isinstance(v, tuple):
+        if v and v[0] == "obj":
+            return v[1]
+        if v and v[0] == "app":
+            return "%s(%s)" % (str(v[1]).rsplit("::", 1)[-1], _show(v[2]))
+        if v and v[0] in ("Ok", "Err", "Some"):
+            return "%s(%s)" % (v[0], _show(v[1]))
+        return "(" + ", ".join(_show(x) for x in v) + ")"
+    return str(v)
 
 
 def no_panic(ctx, F):
